@@ -338,5 +338,5 @@ def run(tier: str) -> int:
     items = sks + extra
     random.Random(seed()).shuffle(items)
     items.sort(key=lambda s: -sk_size(s))
-    collect(rep, pmap(worker, items, budget_s=400 if tier == "quick" else 2400, chunk=8))
+    collect(rep, pmap(worker, items, budget_s=400 if tier == "quick" else 720, chunk=8))
     return rep.finish(required_reach=["clone"])
